@@ -2,7 +2,7 @@
    provided e mentions neither `.` nor a local label -- the two things a definition takes from its place. *)
 From Coq Require Import ZArith List String Ascii Bool NArith Lia.
 From Verif Require Import Base.Res Base.Bytes Spec.PDP11 Spec.Arith Gen.GenGetAsInt Gen.GenOpcodes
-  Model.Insns Model.Directives Model.Asm Proofs.AsmP Proofs.AsmMeta.
+  Model.Insns Model.Directives Model.Asm Model.AsmT Proofs.AsmP Proofs.AsmMeta.
 Import ListNotations.
 Notation length := Datatypes.length.
 Notation concat := List.concat.
@@ -15,14 +15,6 @@ Ltac xinv H :=
   | xbind ?r ?f = XOk _ =>
       let a := fresh "a" in let Ha := fresh "Ha" in
       apply xbind_ok in H; destruct H as [a [Ha H]]
-  end.
-
-Fixpoint nodot (e : expr) : bool :=
-  match e with
-  | Dot => false
-  | Un _ x | Group _ x => nodot x
-  | Bin _ l r => nodot l && nodot r
-  | _ => true
   end.
 
 (* two tables that agree except (possibly) on the key of the moved definition *)
@@ -150,14 +142,6 @@ Definition res_sim (n : string) (r r' : lres) : Prop :=
   | _, _ => False
   end.
 
-(* no other statement defines the name n *)
-Fixpoint nodef (n : string) (s : stmt) : bool :=
-  match s with
-  | Label m | Assign m _ => negb (String.eqb m n)
-  | Repeat _ body | Include _ body =>
-      (fix go (l : list stmt) : bool := match l with [] => true | x :: r => nodef n x && go r end) body
-  | _ => true
-  end.
 Lemma nodef_nested n body :
   (fix go (l : list stmt) : bool := match l with [] => true | x :: r => nodef n x && go r end) body = forallb (nodef n) body.
 Proof. reflexivity. Qed.
